@@ -15,7 +15,7 @@ def plans(quick):
                  sim=dict(num=150, depth=12, slots=1, lists=[['r1', 'r2'], ['r1', 'r3'], ['r1', 'r4'], ['r2']])),
             dict(family='mounts', opts=opts,
                  checks=[dict(steps=4, slots=1, lists=[['u1', 'm12'], ['m12']])],
-                 gen=dict(steps=3, slots=1, lists=[['u1', 'm12'], ['c11']], fail=False, restart=False),
+                 gen=dict(steps=3, slots=1, lists=[['u1', 'm12'], ['c11'], ['ml', 'mr']], fail=False, restart=False),
                  cover_limit=100, walks=30, sim=dict(num=100, depth=10, slots=1)),
             dict(family='deep', opts=opts,
                  checks=[dict(steps=4, slots=1, lists=[['e1', 'e2']])],
@@ -27,6 +27,10 @@ def plans(quick):
                  checks=[dict(steps=4, slots=1, lists=[['v1', 'v2'], ['v3']])],
                  gen=dict(steps=4, slots=1, lists=[['v1', 'v2'], ['v3'], ['v2', 'v3']], fail=False, restart=False),
                  cover_limit=150, walks=40, sim=dict(num=80, depth=10, slots=1)),
+            # name mode over two PARTS of one multi-config file
+            dict(family='names', name_mode=True, opts=opts,
+                 gen=dict(steps=4, slots=1, rcs=['exp#small', 'exp#large'], lists=[['exp#small', 'exp#large']], fail=False, restart=False),
+                 cover_limit=100, walks=30),
             dict(family='names', name_mode=True, opts=opts, gen=dict(steps=4, slots=1, rcs=['top1', 'top2'], lists=[['top1', 'top2'], ['top1']], fail=False, restart=False), cover_limit=120, walks=40, sim=dict(num=80, depth=10, slots=1, rcs=['top1', 'top2', 'model'], lists=[['top1', 'top2'], ['top1'], ['model']])),
         ]
     return [
@@ -38,7 +42,7 @@ def plans(quick):
              gen=dict(steps=5, slots=1, lists=[l for l in ls]), walks=300, walk_len=14,
              sim=dict(num=2000, depth=16, slots=2))
         for f, ls in (('chain', [['r1', 'r2'], ['r1', 'r3'], ['r1', 'r4']]),
-                      ('mounts', [['u1', 'm12'], ['c11'], ['c21']]),
+                      ('mounts', [['u1', 'm12'], ['c11'], ['c21'], ['ml', 'mr']]),
                       ('diamond', [['d1', 'd2'], ['d2', 'd3']]),
                       ('levels', [['v1', 'v2'], ['v3'], ['v2', 'v3']]))
     ]
